@@ -121,6 +121,24 @@ Definition child_env (idx base : string) : list string :=
 (* stdin, stdout, stderr (os/exec opens /dev/null for them) and cmd.ExtraFiles = [peer end] *)
 Definition child_fds : list N := [0; 1; 2; 3]%N.
 
+(* Where that comes from.  A descriptor of the runtime process: its number and its close-on-exec flag.  fork + execve
+   as os/exec drives them: the child has 0, 1, 2, then cmd.ExtraFiles dup2()ed to 3, 4, … (without the flag), and
+   keeps, at its own number, every other descriptor of the parent that does NOT carry the flag *)
+Record rfd := { fd_num : N; fd_cloexec : bool }.
+Fixpoint extra_fds (n : nat) (from : N) : list N :=
+  match n with O => [] | S k => from :: extra_fds k (from + 1)%N end.
+Definition exec_fds (n_extra : nat) (parent : list rfd) : list N :=
+  ([0; 1; 2]%N ++ extra_fds n_extra 3 ++
+   map fd_num (filter (fun f => (negb (fd_cloexec f) && (3 + N.of_nat n_extra <=? fd_num f)%N)%bool) parent))%list.
+
+(* pkg/net.NewSocketPair: socketpair(AF_UNIX, SOCK_STREAM|SOCK_CLOEXEC) — BOTH ends carry the flag; the peer end
+   reaches the plugin only as ExtraFiles[0] *)
+Definition socketpair_fds (local_cloexec peer_cloexec : bool) (a b : N) : list rfd :=
+  [ {| fd_num := a; fd_cloexec := local_cloexec |}; {| fd_num := b; fd_cloexec := peer_cloexec |} ].
+(* descriptors a plugin starts with when the runtime has `others` open and the pair sits at a, b *)
+Definition launched_fds (others : list rfd) (a b : N) : list N :=
+  exec_fds 1 (others ++ socketpair_fds true true a b)%list.
+
 (* ------------------------------------------------------------------ the stub's side (pkg/stub/stub.go) *)
 
 (* os.Getenv over an environment block: first entry with this key; entries without '=' are skipped *)
